@@ -334,6 +334,7 @@ def generate(seed, cfg=None):
         fail_idx = min(fail_idx, npatches - 1)
     tree = dict(ws.t0)
     ws.trees = [dict(tree)]
+    cfg._t0 = dict(ws.t0)
     for pi in range(npatches):
         git = cfg.allow_git and r.random() < 0.4
         reverse = cfg.allow_reverse and r.random() < 0.15
@@ -537,6 +538,19 @@ def _poison(r, patch, tree_before, work, cfg):
             continue
         if reason == "missing":
             p = "missing/dir/nofile%d.c" % r.randint(0, 99) if r.random() < 0.5 else "nofile%d.c" % r.randint(0, 99)
+            # sometimes in a directory that existed at the start but was emptied by the patches applied so far (or is
+            # emptied by this very series): the reject then belongs into a directory that is gone when rejects are written
+            t0 = getattr(cfg, "_t0", None) or {}
+            dirs0 = set(os.path.dirname(q) for q in t0 if "/" in q)
+            dirs_now = set()
+            for q in list(tree_before) + list(work):
+                d = os.path.dirname(q)
+                while d:
+                    dirs_now.add(d)
+                    d = os.path.dirname(d)
+            gone = sorted(d for d in dirs0 if d not in dirs_now)
+            if gone and r.random() < 0.6:
+                p = r.choice(gone) + "/nofile%d.c" % r.randint(0, 99)
             if p in tree_before or p in work:
                 continue
             data = b"line 1\nline 2\nline 3\n"
